@@ -93,6 +93,9 @@ class YajilinClue(Combinator):
         DIR_MAP = {"^": 1, "v": 2, "<": 3, ">": 4}
         dir = DIR_MAP[value[0]]
         n = int(value[1:])
+        if n >= 16:
+            # two-digit numbers: direction + 5 followed by two hex digits (pzpr arrownumber16)
+            return 1, f"{dir + 5}{n:02x}"
         return 1, f"{dir}{hex(n)[2:]}"
 
     def deserialize(self, env, data, idx):
@@ -101,9 +104,14 @@ class YajilinClue(Combinator):
         dir = data[idx]
         if dir == "0":
             return 2, ["??"]
+        DIR_MAP = {1: "^", 2: "v", 3: "<", 4: ">"}
+        if dir in "6789":
+            digits = data[idx + 1 : idx + 3]
+            if len(digits) != 2 or not all(c in "0123456789abcdef" for c in digits):
+                return None
+            return 3, [f"{DIR_MAP[int(dir) - 5]}{int(digits, 16)}"]
         if dir not in "1234":
             return None
-        DIR_MAP = {1: "^", 2: "v", 3: "<", 4: ">"}
         n = data[idx + 1]
         if n == ".":
             return 2, ["??"]
